@@ -10,6 +10,16 @@ from . import c04
 
 PROP = "C09"
 ANTAGONISTS = [
+    # a multi-line module docstring and a name whose import is guessed: the import must not be added again on every application
+    '"""Module\n\ndocstring of several lines.\n"""\nprint(json.dumps(1), os.sep)\n',
+    "#!/usr/bin/env python\n# comment\n\'\'\'Doc\nstring\'\'\'\nfrom __future__ import annotations\nprint(Path('.'), math.pi)\n",
+    # branches that are single, very long returns: the line-length stage lays them out over several lines (heuristics must not depend on the layout)
+    "import os\n\n\ndef describe(path, verbose):\n    if os.path.isdir(path):\n        return \"directory {} containing {} entries, last modified {} and owned by user id {} group {}\".format(path, len(os.listdir(path)), os.path.getmtime(path), os.stat(path).st_uid, os.stat(path).st_gid, os.path.getatime(path))\n    return \"regular file {} of {} bytes, last modified {} and owned by user id {} in verbose={}\".format(path, os.path.getsize(path), os.path.getmtime(path), os.stat(path).st_uid, os.stat(path).st_gid, verbose)\n\n\nprint(describe(\".\", True))\n",
+    "import os\n\n\ndef first_big(paths, threshold, default_directory_name, default_regular_file_name):\n    for path in paths:\n        if os.path.isdir(path):\n            return os.path.join(default_directory_name, os.path.basename(path), str(len(os.listdir(path))), str(os.path.getmtime(path)), \"directory\")\n        if os.path.getsize(path) > threshold:\n            return os.path.join(default_regular_file_name, os.path.basename(path), str(os.path.getsize(path)), str(os.path.getmtime(path)), \"file\")\n    return None\n\n\nprint(first_big([\".\"], 10, \"d\", \"f\"))\n",
+    # loops over the keys of a dictionary that is written through the key, with headers that ast.unparse and black spell differently
+    "import sys\n\n\ndef clear_level(weights, level):\n    for key in weights[2 ** level].keys():\n        weights[2 ** level][key] = 0.0\n    return weights\n\n\nprint(clear_level({1: {'a': 1.5}, 2: {'b': float(len(sys.argv))}}, 1))\n",
+    "import sys\n\n\ndef reset(grid):\n    for row, column in grid.keys():\n        grid[row, column] = 0\n    return grid\n\n\nprint(reset({(1, 2): 3, (4, 5): int(sys.argv[0] == '')}))\n",
+    "def square_level(weights, level):\n    for key in weights[2 ** level].keys():\n        weights[2 ** level][key] = weights[2 ** level][key] ** 2\n    return weights\n\n\nprint(square_level({1: {'a': 1.5}}, 0))\n",
     "def f(x):\n    if x:\n        return 1\n    else:\n        y = 2\n        z = y + 1\n        print(z)\n        return z\n\n\nprint(f(0))\n",
     "def f(x):\n    if not x:\n        pass\n    else:\n        print(1)\n    if x:\n        pass\n    else:\n        print(2)\n\n\nf(1)\n",
     "for i in range(3):\n    if i:\n        print(i)\n        print(i + 1)\n        print(i + 2)\n    else:\n        continue\n",
@@ -60,6 +70,9 @@ def w_converge(arg):
             seq.append(nxt)
         if crashed:
             res["crashed"] += 1
+            if len(seq) > 1:  # earlier applications went through: the sequence does not reach a fixed point, it ends in an exception
+                res["violations"].append({"kind": "later_application_raises", "input": text, "detail": {"options": case.get("options"), "applications_before": len(seq) - 1, "last": seq[-1][-600:]},
+                                          "replay": {"fn": "harness.checks.c09:w_converge", "arg": {"cases": [case]}}})
             continue
         res["cases"] += 1
         first_fixed = next((i for i in range(len(seq) - 1) if seq[i] == seq[i + 1]), None)
